@@ -935,38 +935,42 @@ def one(rep, c, cfg):
             rep.ob("R22.3", f"WaitableSet::{nm} returns (event0, payload[0], payload[1]) of the built-in {tag}",
                    ws_triple(h, nm), "the event triple handed to the executor is permuted or not the built-in's", h.loc())
         # the event passed to the callback: (EVENT_NONE,0,0) first, afterwards what poll/wait returned
-        ev_locals = set()
-        for a in cb.args[1:]:
-            o = f.origin(a)
-            ev_locals.add(o.get("local") if o.get("kind") == "place" else None)
-        ok = len(ev_locals) == 1 and None not in ev_locals
-        kinds = []
-
-        def sources(local, depth=0):
-            for b, i, kind, payload in f.defs.get(local, []):
+        # resolved component-wise, so a tuple local and three separate locals are judged alike
+        def comp(l, proj, idx, out, depth=0):
+            if depth > 8:
+                out.append("other")
+                return
+            for bb, i, kind, payload in f.defs.get(l, []):
                 if kind == "partial":
-                    kinds.append("other")
+                    out.append("other")
                 elif kind == "call":
-                    kinds.append("set" if mir.Call(b, payload).matches(["WaitableSet::poll", "WaitableSet::wait"])
-                                 else "other")
-                elif payload["k"] == "agg" and "tuple" in payload:
-                    kinds.append("none" if [f.origin(x).get("v") for x in payload["ops"]] == [EV["EVENT_NONE"], 0, 0]
-                                 else "other")
+                    out.append("set" if mir.Call(bb, payload).matches(["WaitableSet::poll", "WaitableSet::wait"])
+                               and proj == [f".{idx}"] else "other")
+                elif payload["k"] == "agg" and "tuple" in payload and len(proj) == 1 and proj[0] == f".{idx}" \
+                        and idx < len(payload["ops"]):
+                    operand(payload["ops"][idx], [], idx, out, depth + 1)
                 elif payload["k"] == "use":
-                    o = f.origin(payload["o"])
-                    if is_call(o, ["WaitableSet::poll", "WaitableSet::wait"]) and not o.get("proj"):
-                        kinds.append("set")
-                    elif o.get("kind") == "place" and "local" in o and not o.get("proj") and depth < 4:
-                        sources(o["local"], depth + 1)
-                    else:
-                        kinds.append("other")
+                    operand(payload["o"], proj, idx, out, depth + 1)
                 else:
-                    kinds.append("other")
-        if ok:
-            sources(next(iter(ev_locals)))
-            order = [f.origin(a).get("proj") for a in cb.args[1:]]
-            ok = "other" not in kinds and kinds.count("none") >= 1 and kinds.count("set") >= 2 and \
-                order == [[".0"], [".1"], [".2"]]
+                    out.append("other")
+
+        def operand(op, proj, idx, out, depth=0):
+            if "c" in op:
+                want = EV["EVENT_NONE"] if idx == 0 else 0
+                out.append("none" if not proj and "v" in op and int(op["v"]) == want else "other")
+                return
+            pl = op.get("cp") or op.get("mv")
+            if pl is None:
+                out.append("other")
+                return
+            comp(pl["l"], list(pl.get("p", [])) + proj, idx, out, depth)
+        kinds = []
+        ok = len(cb.args) == 4
+        for idx, a in enumerate(cb.args[1:]):
+            ks = []
+            operand(a, [], idx, ks)
+            kinds.append(ks)
+            ok = ok and "other" not in ks and ks.count("none") >= 1 and ks.count("set") >= 2
         rep.ob("R22.3", f"block_on: the callback receives (EVENT_NONE,0,0) first and then exactly the polled/waited event {tag}",
                ok, f"definitions of the event triple: {kinds}", f.loc(cb.bb))
     rep.guard("R22.3", f"block_on {tag}", r3)
